@@ -238,6 +238,61 @@ def sc_skclf_unfittable(d, n, classes):
     d.witness(0 < len(lab) < n, "some_unlabeled")
 
 
+# ---------------------------------------------------------------- AnnotatorLogisticRegression (two EM iterations)
+class _OneStepResult:
+    def __init__(self, x):
+        self.x = x
+
+
+def _one_gradient_step(fun, x0, method=None, tol=None, jac=None, hessp=None, options=None, **kw):
+    """scipy.optimize.minimize by a bounded stand-in: one gradient step from x0. (The real optimiser sees the training data
+    only through `fun`; a data set that changes loss or gradient at x0 changes this result.)"""
+    loss, grad = fun(x0)
+    return _OneStepResult(x0 - grad)
+
+
+def _sym_softmax(x, axis=None):
+    from symx.facade import FACADE as F_
+    e = F_.exp(arrays.asnd(x))
+    return e / F_.sum(e, axis=axis, keepdims=True)
+
+
+from symx import stubs as _stubs  # noqa: E402
+_ALR = "skactiveml.classifier.multiannotator._annotator_logistic_regression"
+_stubs.MODULE_STUBS[(_ALR, "minimize")] = _one_gradient_step
+_stubs.MODULE_STUBS[(_ALR, "softmax")] = _sym_softmax
+
+
+def sc_alr(d, n, A):
+    """AnnotatorLogisticRegression (max_iter=2: majority-vote initialisation, one M-step, one full E/M step): samples
+    without any label do not enter the fit - weights and confusion matrices equal those of a fit on the rows that carry
+    at least one label"""
+    from skactiveml.classifier.multiannotator import AnnotatorLogisticRegression
+    K = 2
+    idx = [[d.choose(f"label{i}_{a}", [-1, 0, 1]) for a in range(A)] for i in range(n)]
+    rows = [i for i in range(n) if any(k >= 0 for k in idx[i])]
+    if not rows or len(rows) == n:
+        if d.sym:
+            raise core.PathAbort("needs labeled and unlabeled rows")
+        return
+    xs = [d.fl(f"x{i}", lo=-2.0, hi=2.0) for i in range(n)]
+    X = d.arr([[x] for x in xs], shape=(n, 1))
+    y = d.arr([[NAN if k < 0 else float(k) for k in r] for r in idx], shape=(n, A))
+    kw = dict(classes=[0, 1], max_iter=2, fit_intercept=False, random_state=0)
+    try:
+        full = AnnotatorLogisticRegression(**kw).fit(X, y)
+        sub = AnnotatorLogisticRegression(**kw).fit(d.arr([[xs[i]] for i in rows], shape=(len(rows), 1)),
+                                                    d.arr([[NAN if k < 0 else float(k) for k in idx[i]] for i in rows], shape=(len(rows), A)))
+    except (core.Unencodable, core.PathAbort):
+        raise
+    except Exception as e:
+        d.prove(False, "fit_succeeds", info=dict(error=repr(e)[:160]))
+        return
+    d.prove(d.eq_arr(full.W_, sub.W_, 1e-9), "weights_equal_fit_on_rows_with_labels")
+    d.prove(d.eq_arr(full.Alpha_, sub.Alpha_, 1e-9), "confusion_matrices_equal_fit_on_rows_with_labels")
+    d.witness(True, "some_unlabeled")
+
+
 def sc_nic_int(d, n):
     """count targets handed over as an INTEGER array with the sentinel -1: the regressor stores exactly the labeled rows"""
     from skactiveml.regressor import NICKernelRegressor
@@ -304,15 +359,22 @@ HARNESSES.append(dual_harness(
     lambda tier: [dict(n=n, classes=cs) for n in _ns(tier) for cs in ([0, 1], [-1, 1], [1, -1, 0])],
     [UNITS[0], UNITS[7], "skactiveml.classifier._wrapper:SklearnClassifier.predict_proba"], required_witnesses=("some_unlabeled",)))
 HARNESSES.append(dual_harness(
+    "annotator_logistic_regression", sc_alr, lambda tier: [dict(n=2, A=2)] + ([dict(n=3, A=2)] if tier != "quick" else []),
+    ["skactiveml.classifier.multiannotator._annotator_logistic_regression:AnnotatorLogisticRegression.fit",
+     "skactiveml.utils._aggregation:compute_vote_vectors"], required_witnesses=("some_unlabeled",), product_abstraction=True, resample=10))
+HARNESSES.append(dual_harness(
     "refit_sees_only_labeled", _refit,
     lambda tier: [dict(kind=k, n1=2, n2=2) for k in ("classifier", "regressor")],
     [UNITS[0], UNITS[1]], required_witnesses=("both_fits_with_labels",)))
 BOUNDS = dict(quick="n <= 3 training samples, every missing-label pattern, symbolic features / targets / weights / kernel values; fit and "
                     "partial_fit of the wrappers",
               thorough="n <= 4",
-              outside="AnnotatorLogisticRegression (no bounded encoding); the learning algorithm of the wrapped estimator itself "
-                      "(only what it is handed is checked)")
+              outside="AnnotatorLogisticRegression beyond two EM iterations / with the real optimiser (scipy's minimize is replaced by one "
+                      "gradient step from the zero vector: the optimiser sees the data only through the objective); the learning "
+                      "algorithm of the wrapped estimators (only what they are handed is checked)")
 ASSUMPTIONS = [
     "wrapped estimators are recording stubs (fit/partial_fit store their arguments)",
     "kernels: 'precomputed' (PWC, symbolic input) / uninterpreted symmetric kernel function (NICKernelRegressor, rbf in the replay)",
+    "AnnotatorLogisticRegression: 2 samples x 2 annotators x 2 classes, one feature, max_iter=2, fit_intercept=False; exp / log are "
+    "uninterpreted functions with their sign and monotonicity facts; the replay runs the real optimiser",
 ]
